@@ -293,8 +293,79 @@ func (eng *Engine) buildVCq(fn *ssa.Function, ct *Contract, qf int) (vc *VC, err
 		f.freeVars = append(f.freeVars, v)
 		f.assume(and(vc.typeFacts(n, fv.Type(), f.entry), not(eq(n, "0"))))
 	}
+	// behavioural subtyping: a method that implements an interface method under contract is checked against that
+	// contract too (its own precondition must follow from the interface's, the interface's postconditions and frame
+	// must hold at every return)
+	var ict *Contract
+	var isig *types.Signature
+	if ct != nil && ct.Implements != "" {
+		ict = eng.cs.Contracts["iface::"+qualify(ct.Pkg, ct.Implements)]
+		dot := strings.LastIndex(ct.Implements, ".")
+		var itype types.Type
+		if ipkg := eng.pkgByPath(ct.Pkg); dot > 0 && ipkg != nil {
+			if o := ipkg.Scope().Lookup(ct.Implements[:dot]); o != nil {
+				itype = o.Type()
+			}
+		}
+		if ict == nil || itype == nil || len(fn.Params) == 0 {
+			return nil, fmt.Errorf("spec error: implements %s: no such interface contract", ct.Implements)
+		}
+		it, ok := itype.Underlying().(*types.Interface)
+		if !ok {
+			return nil, fmt.Errorf("spec error: implements %s: not an interface", ct.Implements)
+		}
+		for i := 0; i < it.NumMethods(); i++ {
+			if it.Method(i).Name() == ct.Implements[dot+1:] {
+				isig = it.Method(i).Type().(*types.Signature)
+			}
+		}
+		if isig == nil || isig.Params().Len() != len(fn.Params)-1 {
+			return nil, fmt.Errorf("spec error: implements %s: method not found or arity mismatch", ct.Implements)
+		}
+		if !types.Implements(fn.Params[0].Type(), it) {
+			return nil, fmt.Errorf("spec error: implements %s: receiver type does not implement the interface", ct.Implements)
+		}
+		ict.used = true
+		names := []string{"recv"}
+		for i := 0; i < isig.Params().Len(); i++ {
+			names = append(names, isig.Params().At(i).Name())
+		}
+		for i, n := range ict.ParamNames {
+			if i < len(names) {
+				names[i] = n
+			}
+		}
+		rt := fn.Params[0].Type()
+		var recv string
+		if isRefLike(rt) {
+			recv = sx("mk-iface", vc.typeTag(rt), f.params[0].t)
+		} else {
+			box := vc.fresh("recvbox", "Int")
+			f.assume(and(sx(">", box, "0"), sx("select", vc.lookup(f.entry, "alloc", "(Array Int Bool)"), box)))
+			f.assume(eq(f.loadAt(Val{t: box}, rt, f.entry), f.params[0].t))
+			recv = sx("mk-iface", vc.typeTag(rt), box)
+		}
+		vc.implVars = map[string]specVal{names[0]: {term: recv, typ: itype}}
+		for i := 1; i < len(names); i++ {
+			if names[i] == "" || names[i] == "_" {
+				continue
+			}
+			vc.implVars[names[i]] = specVal{term: f.params[i].t, typ: fn.Params[i].Type()}
+		}
+	}
 	env := f.specEnv(f.entry)
-	if ct != nil {
+	if ict != nil {
+		for _, cl := range ict.Requires {
+			f.assume(env.trBool(cl.Expr))
+		}
+		f.R0 = f.R
+		for _, cl := range ct.Requires {
+			c := env.trBool(cl.Expr)
+			o := f.obligeAt(f.R, "implpre", cl.Label, cl.Props, c, fn.Pos())
+			o.Src = "follows from the precondition of " + ct.Implements + ": " + cl.Src
+			f.assume(c)
+		}
+	} else if ct != nil {
 		for _, cl := range ct.Requires {
 			f.assume(env.trBool(cl.Expr))
 		}
@@ -362,6 +433,33 @@ func (eng *Engine) buildVCq(fn *ssa.Function, ct *Contract, qf int) (vc *VC, err
 				o := f.obligeAt(Rk, "post", cl.Label+tag, cl.Props, c, r.pos)
 				o.Src = cl.Src
 				Rk = vc.define("R.post", "Bool", and(Rk, c))
+			}
+			if ict != nil {
+				for _, cl := range ict.Ensures {
+					c := penv.trBool(cl.Expr)
+					o := f.obligeAt(Rk, "post", "iface."+cl.Label+tag, cl.Props, c, r.pos)
+					o.Src = ct.Implements + ": " + cl.Src
+					Rk = vc.define("R.post", "Bool", and(Rk, c))
+				}
+				if ict.HasMod {
+					eff := eng.contractEffects(ict, nil, isig)
+					if !eff["*"] {
+						if vc.didHavocAll && ri == 0 {
+							o := f.obligeAt("true", "frame", "iface.unknown-callee-effects", nil, "false", fn.Pos())
+							o.Src = "the body calls code with unknown effects but the modifies clause of " + ct.Implements + " does not say '*'"
+						}
+						actual := eng.bodyEffects(fn)
+						delete(actual, "*")
+						known := map[string]bool{}
+						for h := range vc.heapSort {
+							known[h] = true
+						}
+						for _, fm := range f.frameConds(ict, f.specEnv(f.entry), f.entry, r.st, union(union(eff, actual), known)) {
+							o := f.obligeAt(r.R, "frame", "iface."+fm.heap+tag, nil, fm.formula, r.pos)
+							o.Src = "only the objects listed in the modifies clause of " + ct.Implements + " (or allocated during the call) change in heap " + fm.heap
+						}
+					}
+				}
 			}
 			if ct.HasMod {
 				eff := eng.contractEffects(ct, fn, fn.Signature)
